@@ -3,9 +3,14 @@ NOTES = ('Technique family: contract-based deductive verification of the real co
 
 NOT_APPLICABLE = {
     'C03': 'subject is the output of two proc-macros (scale-info-derive, parity-scale-codec-derive) over all programs; macro bodies manipulate syn/quote token trees that neither Verus nor Kani can interpret; decided per generated program, i.e. by program generation - another family',
-    'C04': 'quantifies over type expressions and over the behaviour of parity-scale-codec Encode impls (dependency code not under contract); a contract on type_info::<Option<T>>() would restate the impl, relating it to bytes needs a SCALE model of the dependency (proving a model)',
+    'C04': 'two halves, neither within reach: (a) the statement is about the bytes parity-scale-codec writes for std values (Option, Result, Vec, maps, ranges, NonZero, Duration ...) - dependency code that is not '
+           'under contract here, so the byte side could only be an assumed table; (b) the code side, "type_info() of each built-in impl returns the documented shape", was tried on the rustc-expanded '
+           'src/impls.rs: the bodies drive the builders with un-annotated closure literals (`.variant("Some", |v| v.index(1).fields(..))`), to which Verus attaches no postcondition, and the only rewrite that '
+           'would help (inlining builder and closure bodies) turns the code into a model. What IS proved about these impls is their identity structure (C05 / C16: alias forwarding, one identity per '
+           'impl) and the builder functions they call (C17).',
     'C09': 'proc-macro over all programs x feature configurations (as C03); the one pure function (clean_type_string) is a private String pipeline covering a sliver of the statement',
     'C13': 'decided by rustc trait solver per generated program (programs that must compile) - no contract can express it',
-    'C19': 'schemars-generated schema x serde output x a JSON Schema validator - none of it is code of this repository that a verifier here can interpret',
+    'C19': 'schemars-derive output (JsonSchema impls building schema objects through the schemars API) x serde output x the semantics of JSON Schema validation: a contract would need a specification of '
+           'JSON Schema validity and of the schemars API, neither exists for the verifiers here; the serialising side alone is covered by C08',
     'C20': 'a statement about programs that must NOT type-check; decided by rustc per program',
 }
